@@ -33,3 +33,5 @@ MUTANTS.append(dict(name="postprocess-receives-runtime-copies", file='generator/
 MUTANTS.append(dict(name="runtime-copy-filter-inverted-source", file='generator/client_generator.py', expect="R12.6",
     old="for _, _, rel_dst in RUNTIME_FILES}", new="for _, _, rel_dst in []}"))
 MUTANTS.append(dict(name="typing-names-from-backport-package", file='context/render_context.py', expect="R12.4", old='                self.add_import("typing", name, is_typing_import=True)\n', new='                typing_module = "typing_extensions" if name in {"Self", "Required", "NotRequired"} else "typing"\n                self.add_import(typing_module, name, is_typing_import=True)\n'))
+MUTANTS.append(dict(name='runtime-filter-compares-unresolved', file='generator/client_generator.py', expect='R12.6', old='        return [p for p in files if Path(p).resolve() not in copies]\n', new='        return [p for p in files if Path(p) not in copies]\n'))
+MUTANTS.append(dict(name='core-root-completed-into-client', file='context/render_context.py', expect='R12.7', old='            in_core_package = logical_module == self.core_package_name or logical_module.startswith(\n', new='            in_core_package = logical_module.startswith(\n', count=2, also='first-only'))
